@@ -394,7 +394,7 @@ namespace awkward {
       int8_t i = 0;
       for (auto content : contents_) {
         if (TupleBuilder* raw = dynamic_cast<TupleBuilder*>(content.get())) {
-          if (raw->length() == -1  ||  raw->numfields() == numfields) {
+          if (raw->fresh()  ||  raw->numfields() == numfields) {
             tofill = content;
             break;
           }
@@ -453,7 +453,7 @@ namespace awkward {
       int8_t i = 0;
       for (auto content : contents_) {
         if (RecordBuilder* raw = dynamic_cast<RecordBuilder*>(content.get())) {
-          if (raw->length() == -1  ||
+          if (raw->fresh()  ||
               ((check  &&  raw->name() == name)  ||
                (!check  &&  raw->nameptr() == name))) {
             tofill = content;
